@@ -358,6 +358,19 @@ def c07_handleLazy (j : Json) (op : String) (d : Nat) (dflt : Int) : Except Stri
     pure { agree, spec, model := mrows, why := if why1.isEmpty then why2 else why1,
            tags := tags ++ (if rows.isEmpty then ["result-empty"] else ["result-nonempty"]) }
 
+/-- `reversed(fiber)` / `reversed(tensor)` -/
+def c07_handleReversed (j : Json) (d : Nat) : Except String Verdict := do
+  let t ← fTree j "t" (d + 1)
+  let l := (show List (Int × T d) from t)
+  let rows := c07_rows d (stored (reversedIter l))
+  let srows := c07_rows d (stored ((withPos l).reverse))
+  let y1 := c07_implField j "y1"
+  let same := c07_same (treeToJson (d + 1) t) (c07_implField j "after")
+  let (agree, why1) := c07_and [(c07_same rows y1, "yields differ from model"), (same, "fiber changed (model)")]
+  let (spec, why2) := c07_and [(c07_same srows y1, "yields are not the stored elements in reversed order"), (same, "fiber changed")]
+  pure { agree, spec, model := rows, why := if why1.isEmpty then why2 else why1,
+         tags := (if l.length ≥ 2 then ["reversed-nontrivial"] else []) }
+
 /-- one traversal op on the case `j` (which carries its own `impl` observation) -/
 def c07_dispatch (j : Json) (op : String) (d : Nat) (dflt : Int) : Except String Verdict :=
   let cfg := c07_cfg j
@@ -367,6 +380,7 @@ def c07_dispatch (j : Json) (op : String) (d : Nat) (dflt : Int) : Except String
   | "rshape" | "shape" | "ashape" | "rshaperef" | "shaperef" | "ashaperef" => c07_handleShape j op d dflt
   | "corshape" | "coshape" | "coashape" | "corshaperef" | "coshaperef" | "coashaperef" => c07_handleCo j op d dflt
   | "project" | "prune" => c07_handleLazy j op d dflt
+  | "reversed" => c07_handleReversed j d
   | o => throw s!"C07: unknown op {o}"
 
 /-- several steps on the same fiber objects: traversals, read-only calls ("touch") and growth
@@ -471,7 +485,7 @@ def handleC07 (j : Json) : Except String Verdict := do
   let extra := [s!"op:{op}", if cfg.fmt == .U then "fmt:U" else "fmt:C", s!"depth:{d + 1}", s!"dflt:{dflt}",
     fStrD j "kind" "free"] ++ (if cfg.shape.isSome then ["shape-declared"] else []) ++
     (if cfg.active.isSome then ["active-set"] else []) ++
-    (["sibs", "sub", "fdflt", "vk", "spbox", "fmtvia", "between", "chain", "oact", "lowerU", "tshape"].filterMap (fun k =>
+    (["sibs", "sub", "fdflt", "vk", "spbox", "fmtvia", "between", "chain", "oact", "lowerU", "via", "tshape"].filterMap (fun k =>
       match j.getObjVal? k with
       | .ok v => if v.isNull then (if k == "tshape" then some "extent-estimated" else none)
                  else some (if k == "vk" then s!"vk:{v.getStr?.toOption.getD ""}" else if k == "tshape" then "extent-declared" else s!"has:{k}")
